@@ -74,6 +74,7 @@ class Run:
         self.injected: Dict[tuple, BaseException] = {}
         self.tick_nodes = scn.get("tick_nodes")
         self.ticks = 0
+        self.ticker_stopped = False
         self.tmpdir: Optional[str] = None
         self.status = "ok"
         self.detail: Any = None
@@ -229,7 +230,7 @@ class Run:
             res = self.spec["funcs"][fname]["resource"]
             if res == "async_thread" and (self.tick_nodes == "all" or list(path or ()) in self.tick_nodes):
                 t0 = self.ticks
-                pred = lambda: self.ticks > t0  # noqa: E731
+                pred = lambda: self.ticks > t0 or self.ticker_stopped  # noqa: E731
                 self.rt.probe("tick_dependent_bodies")
         sim.yield_("body", pred=pred, info=("finish", tok, nid))
         if flt is not None and flt["when"] == "late":
@@ -442,6 +443,7 @@ class Run:
             state["done"] = True
             if t is not None:
                 await t
+            run.ticker_stopped = True
             if cn is not None:
                 await cn
 
